@@ -177,6 +177,14 @@ Definition cachectl_store (maximumTtl : Z) (st : cp_state) (t eps : Z) (k : key)
         (st', if done then OStored ttl else OKept ttl)
   end.
 
+(* MemoryCache.Store called directly at wall time [now] with caller-chosen storedTime / expireTime: what cacheCtl.Get
+   does when it promotes a redis hit into the memory cache (storedTime lies in the past: the ORIGINAL fetch instant;
+   setNX = true there) and what the verification hook StoreAt does.  The lifetime handed to otter is
+   time.Until(expireTime) = expire - now, whatever storedTime is. *)
+Definition mem_store_at (st : cp_state) (now stored expire : Z) (k : key) (v : msg) (setNX : bool) : cp_state * out :=
+  let '(st', done) := mem_store st k stored expire now v setNX in
+  (st', if done then OStored (expire - now) else OKept (expire - now)).
+
 (* cacheCtl.Get (memory backend) at wall time [t] *)
 Definition cachectl_get (st : cp_state) (t : Z) (k : key) : cp_state * out :=
   match cp_find k (st_map st) with
@@ -192,6 +200,7 @@ Definition cachectl_get (st : cp_state) (t : Z) (k : key) : cp_state * out :=
 Inductive event :=
 | EvTick (c : N)                                              (* the ticker goroutine publishes a new reading *)
 | EvStore (t eps : Z) (k : key) (resp : option msg) (packok : bool)
+| EvStoreAt (now stored expire : Z) (k : key) (v : msg) (setNX : bool)   (* MemoryCache.Store, stored <> now allowed *)
 | EvGet (t : Z) (k : key)
 | EvCollect (k : key)                                         (* otter's cleanup goroutine removes the node if it has expired *)
 | EvEvict (k : key).                                          (* size eviction: any key, any time *)
@@ -200,6 +209,7 @@ Definition cp_step (maximumTtl : Z) (st : cp_state) (ev : event) : cp_state * ou
   match ev with
   | EvTick c => (mkState c (st_map st), OTick)
   | EvStore t eps k resp packok => cachectl_store maximumTtl st t eps k resp packok
+  | EvStoreAt now stored expire k v nx => mem_store_at st now stored expire k v nx
   | EvGet t k => cachectl_get st t k
   | EvCollect k =>
       match cp_find k (st_map st) with
@@ -271,11 +281,18 @@ Definition rr_aged (delta : N) (r r' : rr) : Prop :=
 (* Assumptions about one event, given the backend clock reading [clk] it meets (times in ns from any fixed origin):
      Store: the backend call happens 0 <= eps < 1 s after time.Now(); the clock is not ahead of the wall clock;
             no uint32 wrap of clock + TTL (process uptime + maximum lifetime below 2^32 s).
+     StoreAt: the clock is not ahead of the wall clock; the call is made less than 1 s after expireTime (a later call
+            hands otter a TTL <= -1 s, which getTTL wraps to a huge uint32: C08_observation_past_expiry; the promotion
+            path respects this when redis and the proxy share a clock, because redis has dropped the key by then);
+            no uint32 wrap of clock + TTL.  NOTHING is assumed about storedTime.
      Get:   the clock lags the wall clock by less than [lag]. *)
 Definition ev_ok (lag mx : Z) (clk : N) (ev : event) : Prop :=
   match ev with
   | EvStore t eps k resp pk =>
       0 <= eps < SECOND /\ Z.of_N clk * SECOND <= t + eps /\ Z.of_N clk * SECOND + mx + SECOND < two32 * SECOND
+  | EvStoreAt now stored expire k v nx =>
+      Z.of_N clk * SECOND <= now /\ - SECOND < expire - now /\
+      Z.of_N clk * SECOND + (expire - now) + SECOND < two32 * SECOND
   | EvGet t k => t - lag < Z.of_N clk * SECOND
   | _ => True
   end.
@@ -292,6 +309,9 @@ Definition ev_okb (lag mx : Z) (clk : N) (ev : event) : bool :=
   | EvStore t eps k resp pk =>
       (0 <=? eps) && (eps <? SECOND) && (Z.of_N clk * SECOND <=? t + eps) &&
       (Z.of_N clk * SECOND + mx + SECOND <? two32 * SECOND)
+  | EvStoreAt now stored expire k v nx =>
+      (Z.of_N clk * SECOND <=? now) && (- SECOND <? expire - now) &&
+      (Z.of_N clk * SECOND + (expire - now) + SECOND <? two32 * SECOND)
   | EvGet t k => t - lag <? Z.of_N clk * SECOND
   | _ => true
   end.
@@ -315,5 +335,7 @@ Definition neg_keeps (st : cp_state) (ev : event) (st1 : cp_state) (o : out) : P
   | EvStore t eps k (Some m) pk =>
       negative m = true -> forall e, cp_find k (st_map st) = Some e ->
         st1 = st /\ (o = OSkipped \/ exists L, o = OKept L)
+  | EvStoreAt now stored expire k v true =>        (* set-if-absent, as the promotion of a redis hit is *)
+      forall e, cp_find k (st_map st) = Some e -> st1 = st /\ exists L, o = OKept L
   | _ => True
   end.
